@@ -57,8 +57,11 @@ def src_file(rng, tier, base, fmt=None, tb=None, name="in"):
                     t[1] = rng.choice(model.P_PAREN)      # a bracket in the tag only
     gz = fmt in ("export", "brackets") and rng.random() < 0.15
     path = "%s/%s%s%s" % (base, name, ext, ".gz" if gz else "")
-    return fmt, path, {"tb": tb, "codec": codec, "layout": rng.randrange(1 << 30),
-                       "enc": "utf-8", "gz": gz, "parens": parens}
+    spec = {"tb": tb, "codec": codec, "layout": rng.randrange(1 << 30),
+            "enc": "utf-8", "gz": gz, "parens": parens}
+    if gz and rng.random() < 0.3:
+        spec["gz_members"] = sorted(rng.random() for _ in range(rng.choice([1, 2])))
+    return fmt, path, spec
 
 
 def tfile(rng, tb, need_pos):
